@@ -606,6 +606,70 @@ pub fn run_c16(ctx: &Ctx) -> Report {
         judge("C16", &obs, &cv, rep, &d, false);
     });
     rep.merge(r);
+    // ---- a COM_STMT_RESET (a command the unchanged library does not know and ends the connection on)
+    //      between an execution that binds types and one that reuses them. If the library goes on after
+    //      the RESET, the reuse execution is still decoded with the types bound before: a reset is
+    //      not an execution, and "the most recent execution that carried types" is still the same one
+    let n = if ctx.miri { 2 } else { ctx.n(400, 10_000) };
+    let r = par_cases(ctx, "C16", "reset-between-bind-and-reuse", n, |rng, i, rep| {
+        let id = *rng.pick(&[1u32, 7, 0x0100_0001, u32::MAX]);
+        let big = (1u64 << 63) + rng.below(1000);
+        let small = -(rng.range(1, 30000) as i64);
+        let mk = |a: u64, b: i64| vec![Param { typ: wire::T_LONGLONG, unsigned: true, value: Some(PVal::Int(a as i128)), long: false }, Param { typ: wire::T_SHORT, unsigned: false, value: Some(PVal::Int(b as i128)), long: false }];
+        let (big2, small2) = (big + 1, small - 1);
+        let foreign: Vec<u8> = match i % 3 {
+            0 | 1 => [&[0x1au8][..], &id.to_le_bytes()[..]].concat(),
+            _ => vec![0x1f],
+        };
+        let cmds = vec![Cmd::prepare(b"p"), Cmd::execute_plain(id, &mk(big, small), true), Cmd::new(Kind::Ping, foreign.clone()), Cmd::execute_plain(id, &mk(big2, small2), false), Cmd::ping()];
+        let scripts = vec![Script::PrepOk { id, params: param_cols(2), cols: vec![] }, Script::Q(QProg::completed(1, 0)), Script::Q(QProg::completed(2, 0))];
+        let mut case = Case::new(cmds, scripts);
+        if rng.bool() {
+            case.arrival = Arrival::Pipelined(1);
+        }
+        let obs = run_case(&case);
+        rep.evaluations += 1;
+        rep.counters.class(format!("{} between bind and reuse", if foreign[0] == 0x1a { "COM_STMT_RESET" } else { "COM_RESET_CONNECTION" }));
+        if harness_panic(&obs, rep) {
+            return;
+        }
+        let d = || J::obj().set("statement", id).set("between", hex(&foreign)).set("callbacks", obs.log.cbs.iter().map(|c| J::s(cb_summary(c))).collect::<Vec<_>>()).set("outcome", obs.outcome.describe());
+        if i < 2 {
+            rep.sample(d());
+        }
+        if let Outcome::Panic { file, line, msg } = &obs.outcome {
+            rep.violations.push(viol("C16", format!("C16 {}", panic_signature(file, *line, msg)), format!("panic in a history with a reset between bind and reuse: {}", obs.outcome.describe()), d()));
+            return;
+        }
+        // greeting, auth OK, PREPARE reply (OK, 2 parameter definitions, EOF), OK of the first execution
+        let out = obs.output();
+        let (pkts, _) = wire::packets_prefix(&out);
+        let execs: Vec<&Cb> = obs.log.cbs.iter().filter(|c| matches!(c.kind, CbKind::Execute { .. })).collect();
+        if pkts.len() <= 7 && execs.len() <= 1 {
+            rep.counters.inc("resets_that_ended_the_connection");
+            return;
+        }
+        if foreign[0] != 0x1a {
+            // a connection reset is entitled to forget everything
+            rep.counters.inc("connection_resets_answered_not_judged");
+            return;
+        }
+        // the library answered the reset and went on: the reuse execution is owed its decoding
+        let Some(second) = execs.get(1) else {
+            rep.violations.push(viol("C16", "C16 reuse-after-reset-not-decoded".into(), format!("the server went on after COM_STMT_RESET ({} packets sent), but the execution that reuses the types bound before never reached the shim; outcome {}", pkts.len(), obs.outcome.describe()), d()));
+            return;
+        };
+        if let CbKind::Execute { params, .. } = &second.kind {
+            let ok = params.len() == 2 && params[0].coltype == wire::T_LONGLONG && params[0].inner == Inner::UInt(big2) && params[1].coltype == wire::T_SHORT && params[1].inner == Inner::Int(small2);
+            if !ok {
+                rep.violations.push(viol("C16", "C16 param-value".into(), format!("after COM_STMT_RESET the reuse execution was decoded as {:?}, the client sent (LONGLONG unsigned {}, SHORT {}) under the types bound before", params.iter().map(|p| format!("{:#04x} {}", p.coltype, show_inner(&p.inner))).collect::<Vec<_>>(), big2, small2), d()));
+                return;
+            }
+        }
+        rep.counters.inc("reuse_after_reset_decoded_with_the_earlier_types");
+    });
+    rep.merge(r);
+
     // ---- a statement that has never bound types is executed with new-params-bound = 0, after another
     //      statement (same number of parameters; closed, still open, or the same id prepared again) did
     //      bind types on this connection: there is nothing this execution's values could be decoded
